@@ -242,9 +242,13 @@ func (pl *PerIPLimiter) Allow(ip string) bool {
 		limiter = NewTokenBucket(pl.rate, pl.burst)
 		pl.limiters[ip] = limiter
 	}
+	// Take the token before releasing pl.mu: a concurrent caller's cleanup could
+	// otherwise drop this (still full) bucket between its lookup and its use, and
+	// the client would get a fresh burst from a new one
+	allowed := limiter.Allow()
 	pl.mu.Unlock()
 
-	return limiter.Allow()
+	return allowed
 }
 
 // cleanup removes limiters that are at max capacity (inactive)
@@ -344,9 +348,10 @@ func (pol *PerOperationLimiter) Allow(ip string, opType OperationType) bool {
 		limiter = NewTokenBucket(rate, burst)
 		ipLimiters[opType] = limiter
 	}
+	allowed := limiter.Allow() // before releasing pol.mu, as in PerIPLimiter.Allow
 	pol.mu.Unlock()
 
-	return limiter.Allow()
+	return allowed
 }
 
 // cleanup removes old entries
